@@ -26,6 +26,7 @@ CONSTANTS
   AllowNested = FALSE
   OthersCall = "never"
   KeepPagesWritable = FALSE
+  TrampFlushed = TRUE
   MaxLives = 1
 ACTION_CONSTRAINT AtomicAC
 INVARIANT Emit
